@@ -36,6 +36,8 @@ pub struct Budget {
     pub pairs_sample: usize,
     pub range_hist: usize,
     pub per_variant_cap: usize,
+    /// C04 storm: string comparisons' worth of random non-name probes per case (0 = off)
+    pub storm_work: usize,
 }
 
 impl Budget {
@@ -54,6 +56,7 @@ impl Budget {
                 pairs_sample: 400,
                 range_hist: 3,
                 per_variant_cap: 70000,
+                storm_work: 400_000,
             },
             "thorough" => Budget {
                 name: name.into(),
@@ -68,6 +71,7 @@ impl Budget {
                 pairs_sample: 3000,
                 range_hist: 8,
                 per_variant_cap: 70000,
+                storm_work: 4_000_000,
             },
             // interpreters / valgrind: same code paths, far fewer events
             "miri-quick" => Budget {
@@ -83,6 +87,7 @@ impl Budget {
                 pairs_sample: 16,
                 range_hist: 1,
                 per_variant_cap: 24,
+                storm_work: 0,
             },
             "miri-thorough" => Budget {
                 name: name.into(),
@@ -97,6 +102,7 @@ impl Budget {
                 pairs_sample: 48,
                 range_hist: 2,
                 per_variant_cap: 64,
+                storm_work: 0,
             },
             _ => return None,
         };
@@ -117,6 +123,7 @@ impl Budget {
             "pairs_sample" => self.pairs_sample = v,
             "range_hist" => self.range_hist = v,
             "per_variant_cap" => self.per_variant_cap = v,
+            "storm_work" => self.storm_work = v,
             _ => return Err(format!("unknown budget key {key}")),
         }
         Ok(())
@@ -648,6 +655,36 @@ fn char_edits(name: &str, out: &mut Vec<String>) {
         out.push(build(&chars[..i]));
         out.push(build(&chars[i..]));
     }
+    // permutations of the same characters (a digest which ignores order), round 5 / V09b
+    for i in 0..n.saturating_sub(1) {
+        if chars[i] != chars[i + 1] {
+            let mut v = chars.clone();
+            v.swap(i, i + 1);
+            out.push(build(&v));
+        }
+    }
+    if n >= 2 {
+        let mut v = chars.clone();
+        v.reverse();
+        out.push(build(&v));
+        let mut v = chars.clone();
+        v.rotate_left(1);
+        out.push(build(&v));
+        let mut v = chars.clone();
+        v.swap(0, n - 1);
+        out.push(build(&v));
+    }
+    // same length, same first and last character, different middle (a comparison which samples the string)
+    if n >= 3 {
+        let mut v = chars.clone();
+        for c in v[1..n - 1].iter_mut() {
+            *c = if *c == 'q' { 'k' } else { 'q' };
+        }
+        out.push(build(&v));
+        let mut v = chars.clone();
+        v[n / 2] = if v[n / 2] == '0' { '1' } else { '0' };
+        out.push(build(&v));
+    }
     out.push(format!("{name}{name}"));
     out.push(name.to_uppercase());
     out.push(name.to_lowercase());
@@ -696,6 +733,21 @@ pub fn c04_strings(vt: &VTable, m: &Model, b: &Budget, rng: &mut Rng) -> Vec<Str
             let mut v = chars.clone();
             let k = rng.below(v.len() as u64) as usize;
             v[k] = if v[k] == 'x' { 'y' } else { 'x' };
+            edits.push(v.iter().collect());
+        }
+    }
+    // cross-overs of two names: head of one, tail of another (a comparison of a prefix / suffix / length only)
+    if n >= 2 {
+        for _ in 0..(b.str_names.max(2) * 2) {
+            let a: Vec<char> = m.sorted[rng.below(n as u64) as usize].1.chars().collect();
+            let c: Vec<char> = m.sorted[rng.below(n as u64) as usize].1.chars().collect();
+            if a.is_empty() || c.is_empty() {
+                continue;
+            }
+            let k = 1 + rng.below(a.len() as u64) as usize;
+            let tail = c.len().saturating_sub(a.len().saturating_sub(k)).min(c.len());
+            let mut v: Vec<char> = a[..k.min(a.len())].to_vec();
+            v.extend_from_slice(&c[tail..]);
             edits.push(v.iter().collect());
         }
     }
@@ -809,6 +861,67 @@ pub fn c04(vt: &VTable, m: &Model, b: &Budget, rng: &mut Rng, rep: &mut Report) 
         hits,
         strings.iter().take(6).collect::<Vec<_>>()
     ));
+}
+
+/// C04, volume stage: many cheap random strings which are not names; every one must be refused.
+/// The structured probes above sit next to the names; this stage gives the monitor a defined reach against
+/// *lossy* comparisons (a digest, a sampled comparison) whose false accepts are spread over all strings:
+/// a comparison which accepts a fraction p of the non-names is seen with probability 1 - (1 - p)^probes.
+pub fn c04_storm(vt: &VTable, m: &Model, b: &Budget, rng: &mut Rng, rep: &mut Report) {
+    if b.storm_work == 0 || (vt.from_str_fn.is_none() && vt.from_str_trait.is_none()) {
+        return;
+    }
+    let n = m.n();
+    let probes = (b.storm_work / (n + 40)).clamp(64, 250_000);
+    let names: std::collections::HashSet<&str> = m.sorted.iter().map(|x| x.1).collect();
+    const ALPHA: &[u8] = b"ABCDEFGHIJKLMNOPQRSTUVWXYZabcdefghijklmnopqrstuvwxyz0123456789_";
+    let mut buf = String::with_capacity(16);
+    let mut done = 0u64;
+    for _ in 0..probes {
+        buf.clear();
+        let mut r = rng.next();
+        let len = 1 + (r % 10) as usize;
+        r /= 10;
+        for k in 0..len {
+            if k == 8 {
+                r = rng.next();
+            }
+            buf.push(ALPHA[(r % ALPHA.len() as u64) as usize] as char);
+            r /= ALPHA.len() as u64;
+        }
+        if names.contains(buf.as_str()) {
+            continue;
+        }
+        done += 1;
+        for (item, f) in [("from_str", vt.from_str_fn), ("FromStr", vt.from_str_trait)] {
+            let f = match f {
+                Some(f) => f,
+                None => continue,
+            };
+            match guard(|| f(buf.as_str())) {
+                Ok(None) => {}
+                Ok(Some(g)) => {
+                    if !m.contains(g) {
+                        rep.nonmember(format!(
+                            "{item}({}) returned a value with discriminant {g}, not a declared variant",
+                            show(&buf)
+                        ));
+                    }
+                    rep.violation(
+                        item,
+                        format!("{item}({}) = Some({g}) although it is not the name of any variant", show(&buf)),
+                    );
+                }
+                Err(p) => rep.violation(item, format!("{item}({}) panicked: {p}", show(&buf))),
+            }
+            if rep.viol_count > 8 {
+                return;
+            }
+        }
+    }
+    let per = vt.from_str_fn.is_some() as u64 + vt.from_str_trait.is_some() as u64;
+    rep.ev("from_str_storm", done * per);
+    rep.class("storm_non_names");
 }
 
 // ------------------------------------------------------------------------------------
